@@ -17,6 +17,9 @@ P16 = tuple(itertools.product(V, V))
 P4 = ((-1, 2), (2, -1), (0, 0.5), (0.5, 0.5))
 P2 = ((-1, 2), (2, 0.5))
 NUMS = (1, 2, 3, 4)
+# fine steps: |step| small against |position| (and against 1e-8 near zero) but far above the comparison tolerance -
+# a move must not be skipped or merged because the target is "close to" the previous one
+PF = ((8000, 8000.06), (-5000.03, -5000), (100000.3, 100000), (0, 3e-8))
 INIT = 7.0  # initial motor position, not a member of V: a missing first move shows up in the first reading
 
 RULE = (
@@ -24,7 +27,7 @@ RULE = (
     "grid_scan (1-3 axes, new-style args with snake_axes in {None, False, True, every list of non-first motors} and old-style args "
     "with inline snake flags), list_grid_scan (2-3 axes, snake_axes False/True/lists), scan_nd (inner sums and outer products of "
     "cyclers), log_scan, x2x_scan; starts/stops from {-1,0,0.5,2} (all 16 pairs on the first axis, stated subsets on the others), "
-    "num 1..4, position lists of length 1..3. Reference: exact start+i*(stop-start)/(num-1), zip for inner products, nested loops "
+    "num 1..4, position lists of length 1..3; plus fine-step axes (8000..8000.06, -5000.03..-5000, 100000.3..100000, 0..3e-8; steps far above the 1e-9 comparison tolerance) for scan, inner_product_scan, list_scan, grid_scan and list_grid_scan. Reference: exact start+i*(stop-start)/(num-1), zip for inner products, nested loops "
     "with explicit reversal on every odd traversal of a snaked axis, 10**linspace for log_scan, initial+offset for x2x_scan. "
     "Oracle per plan: motor positions reconstructed from the device ledger at each detector trigger = reference point (1e-9); the "
     "motor readings in the i-th event = reference point; every set target is the reference coordinate of its point; exactly one "
@@ -137,6 +140,19 @@ def _cases(tier):
     for p in t["log"]:
         for num in NUMS:
             out.append(("log_scan", list(p), num))
+    for p in PF:
+        for num in (2, 3, 4):
+            out.append(("scan", [list(p)], num, "pos"))
+            out.append(("inner_product_scan", [list(p)], num))
+            for q in P2:
+                out.append(("scan", [list(p), list(q)], num, "kw"))
+                out.append(("scan", [list(q), list(p)], num, "pos"))
+        out.append(("list_scan", [[p[0], (p[0] + p[1]) / 2, p[1]]]))
+        out.append(("list_scan", [[p[1], p[0], (p[0] + p[1]) / 2], [-1, 2, 0.5]]))
+        for k in (2, 3):
+            for sa in (False, True):
+                out.append(("grid_scan", [[-1, 2, 2], [p[0], p[1], k]], "new", sa))
+                out.append(("list_grid_scan", [[-1, 2], [p[0], (p[0] + p[1]) / 2, p[1]][:k]], sa))
     pairs, inits = t["x2x"]
     for p in pairs:
         for num in NUMS:
